@@ -206,11 +206,6 @@ func cmdVerify(args []string) {
 	}
 }
 
-func cmdCheck(args []string) {
-	fmt.Fprintln(os.Stderr, "check: not yet implemented")
-	os.Exit(2)
-}
-
 // cmdSelftest verifies the engine's own test module: clauses whose label starts
 // with "bad" must not be proved, every other obligation must be.
 func cmdSelftest(args []string) {
